@@ -227,7 +227,7 @@ func (r *Run) addViolation(v Violation) {
 	r.violations = append(r.violations, v)
 	path := r.writeReplay(v)
 	fmt.Printf("VIOLATION property=%s replay=%s\n", r.ID, path)
-	fmt.Printf("  kind=%s pattern=%q options=%#x %s\n", v.Kind, v.Witness.Pattern, v.Witness.Options, oneLine(v.Detail, 400))
+	fmt.Printf("  kind=%s pattern=%s options=%#x %s\n", v.Kind, oneLine(fmt.Sprintf("%q", v.Witness.Pattern), 200), v.Witness.Options, oneLine(v.Detail, 400))
 }
 
 func oneLine(s string, n int) string {
